@@ -37,7 +37,7 @@ class Deadline(Exception):
 
 class VT(object):
     __slots__ = ("name", "idx", "sem", "pending", "state", "os_thread", "fn", "exc", "result",
-                 "timekeeper", "background", "shim", "steps", "ident")
+                 "timekeeper", "background", "shim", "steps", "ident", "atomic")
 
     def __init__(self, name, idx, fn):
         self.name = name
@@ -54,6 +54,7 @@ class VT(object):
         self.shim = None
         self.steps = 0
         self.ident = None
+        self.atomic = 0           # >0: inside a section a harness declared atomic (no pre-emption)
 
     def __repr__(self):
         return "VT(%s)" % self.name
@@ -148,6 +149,11 @@ class Sched(object):
             return None
         if self.abort:
             raise SchedAbort()
+        if getattr(vt, "atomic", 0) > 0:
+            # inside a section the harness declared atomic: no pre-emption, unless the thread has to block
+            k = op[0]
+            if k not in ("sleep", "until", "cond", "join", "start") and not (k == "acq" and op[1].held):
+                return vt
         vt.pending = op
         self.ctl.release()
         vt.sem.acquire()
